@@ -143,3 +143,71 @@ pub fn write_progs(path: &str, progs: Vec<Value>) {
     }
     std::fs::write(path, serde_json::to_vec(&json!({ "progs": progs })).unwrap()).expect("write export");
 }
+
+
+/// Functions lifted by the real translators from the llvm-mc assembled prologue/epilogue templates
+/// of corpus/c17 (`<arch>_<name>.hex`): a second source of programs for the explorations.
+pub fn lifted(rng: &mut Rng, dir: &str) -> Vec<(XProg, String, String)> {
+    use falcon::architecture::{AArch64, AArch64Eb, Amd64, Architecture, Mips, Mipsel, Ppc, X86};
+    let mut files: Vec<String> = match std::fs::read_dir(dir) {
+        Ok(rd) => rd.filter_map(|e| e.ok().map(|e| e.file_name().to_string_lossy().to_string()))
+            .filter(|n| n.ends_with(".hex")).collect(),
+        Err(_) => Vec::new(),
+    };
+    files.sort();
+    let mut out = Vec::new();
+    for name in files {
+        let archname = name.split('_').next().unwrap().to_string();
+        let a: Box<dyn Architecture> = match archname.as_str() {
+            "x86" => Box::new(X86::new()),
+            "amd64" => Box::new(Amd64::new()),
+            "mips" => Box::new(Mips::new()),
+            "mipsel" => Box::new(Mipsel::new()),
+            "ppc" => Box::new(Ppc::new()),
+            "aarch64" => Box::new(AArch64::new()),
+            _ => Box::new(AArch64Eb::new()),
+        };
+        let text = std::fs::read_to_string(format!("{}/{}", dir, name)).unwrap();
+        let hex = text.trim();
+        let bytes: Vec<u8> = (0..hex.len() / 2).map(|i| u8::from_str_radix(&hex[2 * i..2 * i + 2], 16).unwrap()).collect();
+        let mut mem = falcon::memory::backing::Memory::new(a.endian());
+        mem.set_memory(0x1000, bytes, falcon::memory::MemoryPermissions::READ | falcon::memory::MemoryPermissions::EXECUTE);
+        let function = match crate::guard(|| a.translator().translate_function(&mem, 0x1000)) {
+            crate::Outcome::Ok(f) => f,
+            _ => continue,
+        };
+        let mut seen = std::collections::BTreeMap::new();
+        for b in function.blocks() {
+            for i in b.instructions() {
+                for s in i.scalars().unwrap_or_default() {
+                    seen.insert(s.name().to_string(), s.bits());
+                }
+            }
+        }
+        for e in function.edges() {
+            if let Some(c) = e.condition() {
+                for s in c.scalars() {
+                    seen.insert(s.name().to_string(), s.bits());
+                }
+            }
+        }
+        let sp = a.stack_pointer();
+        seen.insert(sp.name().to_string(), sp.bits());
+        let scalars: Vec<il::Scalar> = seen.iter().map(|(n, w)| il::scalar(n.clone(), *w)).collect();
+        let mut inits = Vec::new();
+        for k in 0..4 {
+            let vals: Vec<(il::Scalar, il::Constant)> = scalars.iter().map(|s| {
+                let c = if s.name() == sp.name() { il::Constant::new_big(BigUint::from(0x7000u64), sp.bits()) }
+                        else if k == 0 { il::const_(0, s.bits()) } else { gen::constant(rng, s.bits()) };
+                (s.clone(), c)
+            }).collect();
+            inits.push(json!({"sc": sc_json(&vals), "mem": []}));
+        }
+        let x = XProg {
+            function, scalars: scalars.clone(), big: matches!(a.endian(), falcon::architecture::Endian::Big),
+            mem_base: 0x7000, inits, havocs: havocs(rng, &scalars, 2),
+        };
+        out.push((x, archname, name));
+    }
+    out
+}
